@@ -30,6 +30,7 @@ VARIANTS = {
     "vh-race": ["-tags", "verif", "-race"],
     "vh-bin": ["-tags", "verif,binary_log"],
     "vh-bin-race": ["-tags", "verif,binary_log", "-race"],
+    "vh-asan": ["-tags", "verif", "-asan"],
 }
 
 
@@ -114,17 +115,16 @@ def parse_race_logs(prefix):
             stacks = [s for s in blk.split("\n\n") if s.strip()]
             outer = []
             inz = False
+            # A race belongs to zerolog when one of the two racing ACCESSES is made by zerolog code: the
+            # innermost non-runtime frame of either access stack lies under /repo. Races on the harness's own
+            # memory (both accesses in /verif code, even when reached through a zerolog hook call) are harness bugs.
             for s in stacks[:2]:
                 fr = re.findall(r"^\s+(\S+)\(.*\)\n\s+(\S+?):\d+", s, re.M)
                 fr = [(fn, fl) for fn, fl in fr if not fl.startswith("/usr/") and "/go/src/" not in fl and "runtime/" not in fl]
                 if fr:
                     outer.append(fr[-1][0])
-                for fn, fl in fr:
-                    if fl.startswith("/repo/"):
+                    if fr[0][1].startswith("/repo/"):
                         inz = True
-            for fn, fl, _ in frames:
-                if fl.startswith("/repo/"):
-                    inz = True
             blocks.append(dict(sig="|".join(sorted(outer)), zerolog=inz, text=blk[:3000]))
     return blocks
 
@@ -337,7 +337,7 @@ def main():
         print(__doc__)
         return 2
     if sys.argv[1] == "setup":
-        ok = build(list(VARIANTS))
+        ok = build([v for v in VARIANTS if v != "vh-asan"])
         return 0 if ok else 2
     if sys.argv[1] == "replay":
         pid, path = sys.argv[2], sys.argv[3]
